@@ -1,4 +1,5 @@
 //! vseq: the sequential exploration engine (C01 C02 C03 C04 C05 C07 C08 C12 C13 C14 C17 C18).
+mod faults;
 mod gate;
 mod histcheck;
 mod reg;
@@ -37,6 +38,11 @@ fn violation_from_json(j: &Value) -> (Vec<String>, vcommon::Violation) {
 /// which entries a property's exploration iterates over, and what one item does
 fn job_entries(prop: &str, thorough: bool) -> Vec<reg::Entry> {
     match prop {
+        "C07" | "C08" | "C14" => {
+            let mut v = reg::family("lib");
+            v.extend(reg::family("types"));
+            v
+        }
         "C05" => {
             let mut v = reg::all(false);
             if thorough {
@@ -65,7 +71,8 @@ fn job_child(prop: &str, thorough: bool, k: usize, n: usize, resume: (i64, u64))
     vcommon::child::install_crash_handler();
     let entries = job_entries(prop, thorough);
     let hist = if matches!(prop, "C03" | "C18") { Some(histcheck::Hist::new(thorough, &entries)) } else { None };
-    let items = hist.as_ref().map(|h| h.nodes.len()).unwrap_or(entries.len());
+    let is_fault = matches!(prop, "C07" | "C08" | "C14");
+    let items = if is_fault { faults::items(prop, &entries, thorough) } else { hist.as_ref().map(|h| h.nodes.len()).unwrap_or(entries.len()) };
     for pos in 0..items {
         if pos % n != k || (pos as i64) < resume.0 {
             continue;
@@ -80,7 +87,9 @@ fn job_child(prop: &str, thorough: bool, k: usize, n: usize, resume: (i64, u64))
             emit: &mut emit,
         };
         let sample;
-        if prop == "C05" {
+        if is_fault {
+            sample = faults::run_item(prop, &entries, thorough, pos, &mut d, &mut st);
+        } else if prop == "C05" {
             gate::pair_item(&entries, pos, &mut d, &mut st);
             let e = &entries[pos];
             sample = json!({"saved_type": e.ty.describe(), "loaded_types": entries.len(), "example_claims": entries.iter().take(4).map(|l| format!("{} -> {:?}", l.ty.describe(), vmodel::grammar::claim(&e.ty, &l.ty, e.ty.max_version()))).collect::<Vec<_>>()});
@@ -139,7 +148,7 @@ fn run_sweep(run: &mut Run, prop: &'static str) -> Map<String, Value> {
             // a crash belongs to the round-trip property, and to the packed-path property when
             // it happened in a bulk context
             let bulk = case["context"].as_str() != Some("Single");
-            if !(prop == "C01" || prop == "C03" || prop == "C18" || prop == "C05" || (prop == "C04" && bulk)) {
+            if !(prop == "C01" || prop == "C03" || prop == "C18" || prop == "C05" || prop == "C07" || prop == "C08" || prop == "C14" || (prop == "C04" && bulk)) {
                 return;
             }
             g.0.violation(vcommon::Violation {
@@ -184,7 +193,7 @@ fn main() {
         let resume_pos: i64 = args.extra.iter().position(|a| a == "--resume-after").map(|j| args.extra[j + 1].parse().unwrap()).unwrap_or(-1);
         let resume_sno: u64 = args.extra.iter().position(|a| a == "--resume-sno").map(|j| args.extra[j + 1].parse().unwrap()).unwrap_or(0);
         match prop {
-            "C01" | "C02" | "C04" | "C12" | "C03" | "C18" | "C05" => job_child(prop, args.tier == Tier::Thorough, k, n, (resume_pos, resume_sno)),
+            "C01" | "C02" | "C04" | "C12" | "C03" | "C18" | "C05" | "C07" | "C08" | "C14" => job_child(prop, args.tier == Tier::Thorough, k, n, (resume_pos, resume_sno)),
             _ => vcommon::machinery_error("no child mode for this property"),
         }
     }
@@ -199,6 +208,22 @@ fn main() {
             };
             cov.insert("rule".into(), json!(rule));
             cov.insert("distinct_nontrivial".into(), nontrivial);
+            cov
+        }
+        "C07" | "C08" | "C14" => {
+            let mut cov = run_sweep(&mut run, prop);
+            let snapshot = cov.clone();
+            let g = |k: &str| snapshot.get(k).and_then(|v| v.as_u64()).unwrap_or(0);
+            let (evals, nontrivial, rule) = match prop {
+                "C07" => (g("C07_cuts"), g("C07_cuts"), "case = (file of a (type,value,container) or file-API file, cut offset); every strict prefix is a distinct non-trivial case"),
+                "C08" => (g("C08_executions"), g("C08_deviation_fired"), "case = (type, value, container, side, fault plan); non-trivial = the planned deviation was actually delivered to the operation (or a chunk schedule was active)"),
+                _ => (g("C14_mutations"), g("C14_mutations"), "case = (encrypted file, single byte replacement | truncation | other password); every one differs from the intact file / right password"),
+            };
+            cov.insert("evaluations".into(), json!(evals));
+            cov.insert("distinct_nontrivial".into(), json!(nontrivial));
+            cov.insert("rule".into(), json!(rule));
+            cov.remove("states");
+            cov.remove("traces_validated_against_impl");
             cov
         }
         "C05" => {
